@@ -631,6 +631,10 @@ def wire_of(conv, index, res):
         stdio = bytes(res[i])
         sse = to_text(res[i + 1]).encode("utf-8")
         legacy = to_text(res[i + 2]).encode("utf-8")
+        if e.get("legacy_untyped"):
+            # the legacy server writes its messages as bare `data:` events (no event field): legal, and documented for this carrier
+            import re as _re
+            legacy = _re.sub(rb"(?m)^event:[ ]?message\r?\n", b"", legacy)
         body = to_text(res[i + 3]).encode("utf-8")
         oks = [bool(x) for x in res[i + 4:i + 4 + n]]
         i += 4 + n
@@ -879,6 +883,29 @@ def explore(ctx, drv):
             st["notifs"] = [gen_notif(rng) for _ in range(3)]
             st["enc"] = gen_enc(rng, 4)
         items.append((conv, "long-session"))
+    # integers outside the 64-bit range, one per message and nothing else with 19+ digits beside it: every carrier decodes
+    # the same digits (the carriers use DIFFERENT JSON decoders: fast_json for stdio and the event streams, httpx for JSON bodies)
+    for big in (-(2 ** 63) - 1, -9999999999999999999, 2 ** 64, 10 ** 30, -(10 ** 30), 2 ** 63, -(2 ** 63)):
+        for mode in ("200", "202"):
+            st = gen_step(rng, "raw")
+            st["call"]["id"] = "wide"
+            st["notifs"] = []
+            st["answer"] = {"result": {"n": big, "l": [big, {"k": big}]}}
+            st["enc"] = gen_enc(rng, 1)
+            st["enc"]["legacy_mode"] = mode
+            items.append(({"steps": [st]}, "wide-integer"))
+    # payloads that MENTION endpoint-like paths ("/mcp", "/messages/"), with the legacy server naming its events or not
+    for untyped in (False, True):
+        for mode in ("200", "202"):
+            st = gen_step(rng, "raw")
+            st["call"]["id"] = "paths"
+            st["notifs"] = [{"jsonrpc": "2.0", "method": "notifications/message",
+                             "params": {"level": "info", "data": {"file": "/srv/mcp/tools.py"}, "logger": "x"}}]
+            st["answer"] = {"result": {"uri": "file:///srv/mcp/x", "u": "http://host/messages/?session=1", "p": "/mcp"}}
+            st["enc"] = gen_enc(rng, 2)
+            st["enc"]["legacy_mode"] = mode
+            st["enc"]["legacy_untyped"] = untyped
+            items.append(({"steps": [st]}, "endpoint-like-paths-in-payload"))
     # valid JSON-RPC outside MCP: a result that is not a JSON object (the refuted half of C15_decoders_agree)
     for res_ in (None, 5, "s", [1, None], True):
         st = gen_step(rng, "raw")
